@@ -44,6 +44,9 @@ EXTRA_TEMPLATES = [
     ('param-noskipws', "A[noskipws", "]: 'a';"),
     ('param-split', "A[split", "]: 'a';"),
     ('param-unknown', "A[foo", "]: 'a';"),
+    ('param-nows', "A[nows", "]: 'a';"),
+    ('param-nosplit', "A[nosplit", "]: 'a';"),
+    ('param-noskipws-value', "A[noskipws=", "]: 'a';"),
     ('self-ref-direct', "A: A", ";"),
     ('self-ref-pair', "A: B", "; B: A;"),
     ('ref-basetype', "A: a=[INT", "];"),
